@@ -67,15 +67,17 @@ ScaleOK(c) ==
           /\ \A j \in 1..NJ : AngleOK(c.th[j], c.eps[j], c.F) /\ RadOK(c.rr[j], c.th[j]) /\ TanOK(c.sn[j], c.rr[j])
           /\ RadOK(c.rF, c.F) /\ TanOK(c.sd, c.rF)
 
-Abs9(f(_)) == [j \in 1..NJ |-> DAbs(f(j))]
+\* explicit tuples: each entry is evaluated once (a function constructor would be re-evaluated on
+\* every application)
+Tup9(f(_)) == <<f(1), f(2), f(3), f(4), f(5), f(6), f(7), f(8), f(9)>>
 QResidual(c, e) ==
-  CASE e.kind = "height" -> [j \in 1..NJ |-> DAbs(DSub(DMul(c.sd, e.Y[j]), DMul(c.sn[j], e.yp)))]
-    [] e.kind = "tangent" -> [j \in 1..NJ |-> DAbs(DSub(DMul(c.sd, e.M[j]), DMul(c.sn[j], DMul(e.up, e.N[j]))))]
-    [] e.kind = "focus" -> [j \in 1..NJ |-> DAbs(DSub(DMul(e.yp, e.M[j]), DMul(e.up, DMul(e.Y[j], e.N[j]))))]
+  CASE e.kind = "height" -> Tup9(LAMBDA j : DAbs(DSub(DMul(c.sd, e.Y[j]), DMul(c.sn[j], e.yp))))
+    [] e.kind = "tangent" -> Tup9(LAMBDA j : DAbs(DSub(DMul(c.sd, e.M[j]), DMul(c.sn[j], DMul(e.up, e.N[j])))))
+    [] e.kind = "focus" -> Tup9(LAMBDA j : DAbs(DSub(DMul(e.yp, e.M[j]), DMul(e.up, DMul(e.Y[j], e.N[j])))))
 QWeight(c, e) ==
   CASE e.kind = "height" -> c.sn
-    [] e.kind = "tangent" -> [j \in 1..NJ |-> DMul(c.sn[j], DAbs(e.N[j]))]
-    [] e.kind = "focus" -> [j \in 1..NJ |-> DAbs(DMul(e.M[j], e.up))]
+    [] e.kind = "tangent" -> Tup9(LAMBDA j : DMul(c.sn[j], DAbs(e.N[j])))
+    [] e.kind = "focus" -> Tup9(LAMBDA j : DAbs(DMul(e.M[j], e.up)))
 QFloor(c, e) ==
   CASE e.kind \in {"height", "tangent"} -> DShift(DMul(c.sd, DAbs(e.S)), -FLOORBITS)
     [] e.kind = "focus" -> DShift(DMul(DAbs(e.S), DAbs(e.up)), -FLOORBITS)
@@ -89,9 +91,13 @@ JudgeQuantity(c, e) ==
      Fails(Len(e.X) = NJ /\ \A j \in 1..Len(e.X) : Small(e.X[j], e.S, FLOORBITS), "x_zero")
   ELSE IF ~QLen(e) THEN {"not_finite"}
   ELSE LET F == QFloor(c, e)
-           f1 == Limit(QResidual(c, e), QWeight(c, e), c.sn, F)
-       IN IF f1 = {} THEN LimNotes(QResidual(c, e), QWeight(c, e), c.sn, F)
+           r == QResidual(c, e)
+           w == QWeight(c, e)
+           f1 == Limit(r, w, c.sn, F)
+       IN IF f1 = {} THEN LimNotes(r, w, c.sn, F)
           ELSE IF "not_finite" \in f1 THEN f1
-          ELSE IF c.fam = "chief" /\ e.kind # "focus" /\ Limit(QResidual(c, Flip(e)), QWeight(c, e), c.sn, F) = {}
-               THEN {"chief_orientation"} ELSE f1
+          ELSE IF c.fam = "chief" /\ e.kind # "focus"
+               THEN LET r2 == QResidual(c, Flip(e)) IN
+                    IF Limit(r2, w, c.sn, F) = {} THEN {"chief_orientation"} ELSE f1
+               ELSE f1
 =============================================================================
